@@ -55,7 +55,8 @@ func c19valid(pfx, label string) *genP1 {
 
 func (h *c19) bound(payload []byte) (IClaims, int, bool) {
 	for _, b := range h.binds {
-		if verifIsSameBuffer(payload, b.payload) {
+		// symbolic: the very same buffer; native: the real decoder copies, so equal content
+		if verifIsSameBuffer(payload, b.payload) || (!ndSymbolic() && len(payload) > 0 && verifSameBytes(payload, b.payload)) {
 			return b.claims, b.key, true
 		}
 	}
@@ -68,6 +69,8 @@ func (h *c19) gen(c IClaims) *genP1 {
 		return h.gx
 	case IClaims(h.gy.c):
 		return h.gy
+	case IClaims(h.gz.c):
+		return h.gz
 	}
 	for _, o := range h.objs {
 		if o.c == c {
@@ -162,9 +165,18 @@ func (h *c19) payloadOf(c IClaims, fresh string) []byte {
 	return verifRealCBOR(c)
 }
 
+func (h *c19) payloadOfInvalid() []byte {
+	if ndSymbolic() {
+		b := ndBytes("payload.invalid")
+		ndAssume(len(b) > 0)
+		return b
+	}
+	return verifRealCBOR(h.gz.c)
+}
+
 func (h *c19) decode(t int) {
 	kind := ndInt(ndName("tok", t))
-	ndAssume(kind >= 0 && kind <= 5)
+	ndAssume(kind >= 0 && kind <= 6)
 	kind = ndConcrete(kind)
 	var buf []byte
 	switch kind {
@@ -215,6 +227,13 @@ func (h *c19) decode(t int) {
 		} else {
 			buf = []byte{0xd2, 0x84, 0x00}
 		}
+	case 6: // honestly signed token (Sign does not validate) carrying the INVALID claims-set
+		p := h.payloadOfInvalid()
+		h.bind(p, h.gz.c, 0)
+		if ndSymbolic() {
+			verifStub.byBuf = append(verifStub.byBuf, verifBufClaims{buf: p, g1: h.gz})
+		}
+		buf = h.craft(p, 0)
 	case 5: // honestly signed envelope whose payload is not a claims map
 		var p []byte
 		if ndSymbolic() {
@@ -275,7 +294,9 @@ func VerifC19() {
 	verifGenPfx = "z."
 	h.gz = genP1Claims(0, 4)
 	verifGenPfx = ""
-	ndAssume(!h.gz.specValid())
+	// invalid but natively encodable: only the lifecycle value is wrong
+	ndAssume(h.gz.specValidExcept(true) && h.gz.hasLC && !specLifecycleValid(h.gz.lc))
+	verifSetLabel(h.gz.c, ".Z")
 	if h.e.SetClaims(h.gx.c) != nil {
 		ndAssert("c19-initial-attach", false)
 		return
